@@ -63,6 +63,7 @@ inductive KnownU
   | unionNullDropped       -- a `{type: null}` alternative has no variant: `null` is refused
   | unionShadowed          -- an earlier variant accepts a document that a later alternative describes more fully
   | oneOfOutAmbiguous      -- `oneOf`: the re-encoded document is valid against more than one alternative
+  | relaxedDropsAlternatives  -- `anyOf` turned into Known/Other: alternatives that are not strings have no variant
   deriving DecidableEq, Repr
 
 def KnownU.name : KnownU → String
@@ -70,6 +71,7 @@ def KnownU.name : KnownU → String
   | .unionNullDropped => "KnownUnionNullDropped"
   | .unionShadowed => "KnownUnionShadowed"
   | .oneOfOutAmbiguous => "KnownOneOfOutAmbiguous"
+  | .relaxedDropsAlternatives => "KnownRelaxedDropsAlternatives"
 
 /-- index of the first variant that accepts the document -/
 def firstAccept : List UVar → J → Nat → Option Nat
@@ -83,6 +85,9 @@ def altVariantIdx : List Alt → Nat → List (Alt × Option Nat)
   | a :: r, i => (a, some i) :: altVariantIdx r (i + 1)
 
 def classesU (fname : Str → Str) (vname : J → Str) (oneOf : Bool) (alts : List Alt) (doc : J) : List KnownU :=
+  if !oneOf && relaxedPattern alts then
+    (match doc with | .str _ => [] | _ => [KnownU.relaxedDropsAlternatives])
+  else
   let vs := unionTy fname vname alts
   let fa := firstAccept vs doc 0
   (if allUnit alts then [] else match doc with
